@@ -1025,7 +1025,16 @@ func driveBlocksSeq(opt *Options) error {
 		fmt.Sscan(s, &steps)
 	}
 	big := opt.Extra["big"] != "0"
-	blkBufferScenarios(tw, rnd)
+	if opt.Extra["only"] == "scenarios" {
+		// the scenarios around the UNDERLYING buffer run in a process of their own: an allocator that keeps pointers into
+		// memory which was re-mapped takes the whole process down (SIGSEGV is not a recoverable panic) - that death is
+		// then the observation
+		blkBufferScenarios(tw, rnd)
+		if big {
+			blkBulkOdd(tw, rnd, page)
+		}
+		return os.WriteFile(opt.Out+".notes.json", []byte(`{"notes": [], "runs": []}`), 0o644)
+	}
 	var cfgs []blkRunCfg
 	for t := 0; t < opt.N; t++ {
 		switch t % 6 {
@@ -1063,7 +1072,6 @@ func driveBlocksSeq(opt *Options) error {
 	}
 	if big {
 		notes = append(notes, blkBulk(rnd, page)...)
-		blkBulkOdd(tw, rnd, page)
 	}
 	out, _ := json.MarshalIndent(map[string]any{"notes": notes, "runs": cfgs}, "", " ")
 	return os.WriteFile(opt.Out+".notes.json", out, 0o644)
